@@ -105,7 +105,20 @@ def main():
     if len(sys.argv) > 1 and os.path.exists(sys.argv[1]):
         with open(sys.argv[1]) as f:
             rec = json.load(f)
-    from emu_base.pulser_adapter import _get_target_times
+    from emu_base.pulser_adapter import _get_target_times, _unique_observable_times
+    # the requested times: every observable's own ones, the default ones for observables without
+    for own, default in (([[0.2]], [0.5, 0.8]), ([None], [0.5, 0.8]), ([[0.1, 0.3], None, [0.7]], [0.9]),
+                         ([None, [0.4]], [0.6]), ([], [0.5])):
+        cfg = SimpleNamespace(observables=[SimpleNamespace(evaluation_times=o) for o in own],
+                              default_evaluation_times=Times(default))
+        want = set()
+        for o in own:
+            want |= set(default if o is None else o)
+        got = set(_unique_observable_times(cfg))
+        if got != want:
+            print(f"REPRODUCED: _unique_observable_times(observables with evaluation_times {own}, default "
+                  f"{default}) = {sorted(got)}, requested times are {sorted(want)}")
+            return 1
     n = 0
     for D, dt, req in cases(rec):
         n += 1
